@@ -86,6 +86,8 @@ impl Pay for Tracked {
         Tracked { v, alive: ALIVE }
     }
     fn v(&self) -> u64 {
+        // reading a delivered payload takes time too: storage that was released too early can be overwritten meanwhile
+        crate::sched::yield_here("payload.read");
         if self.alive != ALIVE {
             anomaly(format!("payload {} read while not alive (marker {:#x})", self.v, self.alive));
         }
